@@ -387,6 +387,33 @@ func c09psRequest(e common.Env, p *common.Part, n, t, L int, rng *mrand.Rand) {
 		}
 		p.Count("coordinated_alterations", 1)
 	}
+	// an adaptive requester outside the package (c09ext.go)
+	variant, found := "", false
+	for _, v := range c09oracleVariants {
+		if req, ok := externalRequest(L, rng, "", 0, v); ok && a.signRequest(req) == nil {
+			variant, found = v, true
+			break
+		}
+	}
+	if !found {
+		p.Inconcl("the externally built honest request was not accepted under any challenge variant: adaptive forgeries skipped")
+	} else {
+		p.Count("external_prover_selfchecks", 1)
+		for _, fg := range []string{"plant-b", "plant-a", "solve-d", "solve-f", "solve-s"} {
+			for j := 0; j <= L; j++ {
+				req, ok := externalRequest(L, rng, fg, j, variant)
+				if !ok {
+					continue
+				}
+				p.Count("adaptive_forgeries", 1)
+				wit := map[string]interface{}{"request_hex": fmt.Sprintf("%x", req)}
+				if variant != "" {
+					wit["challenge_variant"] = "honest requests are only accepted when the prover leaves '" + variant + "' out of the challenge"
+				}
+				o.expectReject(fmt.Sprintf("adaptive requester, component %d", j), fg, a.signRequest(req), wit)
+			}
+		}
+	}
 	// the exported SignBlindSignature on the same BlindSignature value, twice
 	pp := ps.Setup(curve, L)
 	sk, _ := ps.LocalKeyGen(pp)
@@ -611,7 +638,7 @@ func forgeDegenerateProof(tpkBytes []byte, L int, rng *mrand.Rand) ([]byte, bool
 }
 
 func unitC09(e common.Env, p *common.Part) {
-	p.Rule = "genuine objects made through the public API (BLS partial signatures and aggregates from dealt shares; PS requests, partial signatures, witnesses and proofs), then every bound component perturbed by one group or field unit or swapped with the same field of an object of another session: BLS {digest, each share +G1 / other digest / other key generation / other signer, labels swapped, other key, t-1 shares}; PS request {CM, U, each A[i], B[i], proof S, Z, each X[i], Y[i], D[i], F[i]}; PS proof {h^eps, h'^eps, nu, kappa, psi.X[i], psi.Y, Gamma, Phi, witnesses swapped / foreign, t-1 witnesses, other key, a proof forged from the public key alone with identity elements}; verdicts that depend on Lagrange coefficients are predicted by an independent math/big reference; same object verified/signed twice; distinct key = (object kind, n, t, field, perturbation); non-trivial when the object differs from the genuine one"
+	p.Rule = "genuine objects made through the public API (BLS partial signatures and aggregates from dealt shares; PS requests, partial signatures, witnesses and proofs), then every bound component perturbed by one group or field unit or swapped with the same field of an object of another session: BLS {digest, each share +G1 / other digest / other key generation / other signer, labels swapped, other key, t-1 shares}; PS request {CM, U, each A[i], B[i], proof S, Z, each X[i], Y[i], D[i], F[i]; and requests of an adaptive requester re-implemented outside the package (self-checked: its honest request is accepted) that plants an offset before the challenge and moves A[j]/B[j] afterwards, or solves D[j]/F[j]/S for a false statement after the challenge}; PS proof {h^eps, h'^eps, nu, kappa, psi.X[i], psi.Y, Gamma, Phi, witnesses swapped / foreign, t-1 witnesses, other key, a proof forged from the public key alone with identity elements}; verdicts that depend on Lagrange coefficients are predicted by an independent math/big reference; same object verified/signed twice; distinct key = (object kind, n, t, field, perturbation); non-trivial when the object differs from the genuine one"
 	p.Assumptions = append(p.Assumptions, "a forged object verifying by chance has probability ~2^-250: any acceptance is a violation; MPrime of a request is recomputed by the signer and is not in the catalogue")
 	type nt struct{ n, t int }
 	nts := []nt{{2, 2}, {3, 2}, {3, 3}, {4, 2}, {4, 3}, {5, 3}}
